@@ -13,14 +13,14 @@ namespace Staking
 open KMap
 
 theorem grossReward_atomics (now since : Nat) (apr : Dec) (S : Nat) :
-    (grossReward now since apr S).atomics = S * apr.atomics * (now - since) / YEAR := by
+    (grossReward now since apr S).atomics = S * apr.atomics * (elapsed now since) / YEAR := by
   unfold grossReward
   simp only [Dec.div, Dec.mul, Dec.ofNat]
   have h1 : Dec.ONE * S * apr.atomics / Dec.ONE = S * apr.atomics := by
     rw [Nat.mul_assoc]; exact Nat.mul_div_cancel_left _ Dec.ONE_pos
   rw [h1]
-  have h2 : S * apr.atomics * (Dec.ONE * (now - since)) / Dec.ONE = S * apr.atomics * (now - since) := by
-    have : S * apr.atomics * (Dec.ONE * (now - since)) = Dec.ONE * (S * apr.atomics * (now - since)) := by ac_rfl
+  have h2 : S * apr.atomics * (Dec.ONE * (elapsed now since)) / Dec.ONE = S * apr.atomics * (elapsed now since) := by
+    have : S * apr.atomics * (Dec.ONE * (elapsed now since)) = Dec.ONE * (S * apr.atomics * (elapsed now since)) := by ac_rfl
     rw [this]; exact Nat.mul_div_cancel_left _ Dec.ONE_pos
   rw [h2]
   exact Nat.mul_div_mul_left _ _ Dec.ONE_pos
@@ -33,7 +33,7 @@ def creditOf (S A c sa T : Nat) : Nat :=
 theorem credit_eq {now since : Nat} {apr c : Dec} {vi : ValInfo} {nr : Dec} (sh : Shares)
     (hc : c.atomics ≤ Dec.ONE) (hle : since ≤ now) (hS : vi.stake ≠ 0)
     (h : calcRewards now since apr c vi.stake = .ok nr) :
-    (shareOfRewards sh vi nr).atomics = creditOf vi.stake apr.atomics c.atomics sh.stake.atomics (now - since) := by
+    (shareOfRewards sh vi nr).atomics = creditOf vi.stake apr.atomics c.atomics sh.stake.atomics (elapsed now since) := by
   rw [calcRewards_ok now since apr c vi.stake hle hc] at h
   simp only [Outcome.ok.injEq] at h
   subst h
@@ -210,7 +210,7 @@ theorem update_is_credit {s s1 : SState} {now : Nat} {v : String} {d : Addr} {vi
     (hvi : get? s.vinfo v = some vi) (hvo : s.validator? v = some vo) (hsh : get? s.stakes (d, v) = some sh)
     (hlt : vi.last < now) (hS : vi.stake ≠ 0) :
     (curShares s1 d v).rewards.atomics = sh.rewards.atomics +
-        creditOf vi.stake s.info.apr.atomics vo.commission.atomics sh.stake.atomics (now - vi.last) ∧
+        creditOf vi.stake s.info.apr.atomics vo.commission.atomics sh.stake.atomics (elapsed now vi.last) ∧
     (curShares s1 d v).stake = sh.stake := by
   have hvo' : vo ∈ s.validators := List.mem_of_find?_eq_some hvo
   have hc := hi.comm_le vo hvo'
